@@ -17,34 +17,62 @@ func init() {
 
 var errSentinel = errors.New("verif: injected write failure")
 
-// failWriter accepts exactly k bytes in total, then returns a short write with the sentinel error.
+// failWriter accepts exactly k bytes in total, then fails: permanently (every later call returns the sentinel), or, when
+// transient is set, only the call that crosses the limit fails and later calls succeed again (a full disk that was
+// cleaned up, a fixed-capacity buffer that was drained). before holds the bytes accepted before the first failure.
 type failWriter struct {
-	k   int
-	got []byte
+	k         int
+	transient bool
+	failed    bool
+	before    []byte
+	calls     int
 }
 
 func (f *failWriter) Write(p []byte) (int, error) {
-	room := f.k - len(f.got)
+	f.calls++
+	if f.failed {
+		if f.transient {
+			return len(p), nil
+		}
+		return 0, errSentinel
+	}
+	room := f.k - len(f.before)
 	if room >= len(p) {
-		f.got = append(f.got, p...)
+		f.before = append(f.before, p...)
 		return len(p), nil
 	}
 	if room < 0 {
 		room = 0
 	}
-	f.got = append(f.got, p[:room]...)
+	f.before = append(f.before, p[:room]...)
+	f.failed = true
 	return room, errSentinel
 }
 
-// c14Case runs one faulted conversion. variant: 0 plain writer, 1 caller-supplied bufio.Writer of size 16.
+// richWriter is a destination that also offers WriteByte / WriteString / WriteRune, as *bytes.Buffer and many
+// application writers do, but is NOT a util.BufWriter (no Flush/Available/Buffered).
+type richWriter struct{ f *failWriter }
+
+func (r richWriter) Write(p []byte) (int, error)       { return r.f.Write(p) }
+func (r richWriter) WriteString(s string) (int, error) { return r.f.Write([]byte(s)) }
+func (r richWriter) WriteByte(c byte) error {
+	_, err := r.f.Write([]byte{c})
+	return err
+}
+func (r richWriter) WriteRune(c rune) (int, error) { return r.f.Write([]byte(string(c))) }
+
+var c14Variants = []string{"plain io.Writer", "caller bufio.Writer(16)", "io.Writer, transient failure", "writer with WriteByte/WriteString/WriteRune", "same, transient failure"}
+
+// c14Case runs one faulted conversion.
 func c14Case(s *core.Sub, cfg core.Cfg, src, ref []byte, k, variant int) {
 	md := cfg.New()
-	fw := &failWriter{k: k}
+	fw := &failWriter{k: k, transient: variant == 2 || variant == 4}
 	var w io.Writer = fw
-	var bw *bufio.Writer
-	if variant == 1 {
-		bw = bufio.NewWriterSize(fw, 16)
-		w = bw
+	switch variant {
+	case 1:
+		w = bufio.NewWriterSize(fw, 16)
+	case 3, 4:
+		w = richWriter{fw}
 	}
 	var err error
 	var pan any
@@ -52,7 +80,7 @@ func c14Case(s *core.Sub, cfg core.Cfg, src, ref []byte, k, variant int) {
 		defer func() { pan = recover() }()
 		err = md.Convert(src, w)
 	}()
-	ops := map[string]any{"fail_after_bytes": k, "variant": []string{"plain io.Writer", "caller bufio.Writer(16)"}[variant], "output_len": len(ref)}
+	ops := map[string]any{"fail_after_bytes": k, "variant": c14Variants[variant], "output_len": len(ref)}
 	vs := fmt.Sprintf("v%d", variant)
 	switch {
 	case pan != nil:
@@ -68,8 +96,8 @@ func c14Case(s *core.Sub, cfg core.Cfg, src, ref []byte, k, variant int) {
 	if k < len(ref) {
 		want = ref[:k]
 	}
-	if pan == nil && !bytes.Equal(fw.got, want) {
-		s.Violate("accepted-bytes-not-prefix:"+vs, cfg.String(), src, ops, fmt.Sprintf("bytes accepted before the failure (%d) are not the first %d bytes of the reference output", len(fw.got), len(want)), string(want), string(fw.got))
+	if pan == nil && !bytes.Equal(fw.before, want) {
+		s.Violate("accepted-bytes-not-prefix:"+vs, cfg.String(), src, ops, fmt.Sprintf("bytes accepted before the failure (%d) are not the first %d bytes of the reference output", len(fw.before), len(want)), string(want), string(fw.before))
 	}
 	s.Evals.Add(1)
 }
@@ -80,7 +108,7 @@ func c14Doc(s *core.Sub, cfg core.Cfg, src []byte, stride int) {
 		return
 	}
 	ref := append([]byte{}, ref0...)
-	for variant := 0; variant < 2; variant++ {
+	for variant := 0; variant < len(c14Variants); variant++ {
 		for k := 0; k < len(ref); k += stride {
 			c14Case(s, cfg, src, ref, k, variant)
 		}
@@ -96,7 +124,7 @@ func runC14(r *core.Run) {
 	n := core.Pick(r, 2, 3)
 	for _, cn := range []string{"core", "all+autoid+attr"} {
 		cfg := core.MustCfg(cn)
-		wordsSub(r, "words/"+cn, fmt.Sprintf("for each word: every byte offset k in [0,len(out)+1] at which the writer starts failing (short write + sentinel), as plain io.Writer and as caller-supplied bufio.Writer(16), under %s: error wraps the sentinel, accepted bytes == out[:k]; distinct = reference output digest", cn),
+		wordsSub(r, "words/"+cn, fmt.Sprintf("for each word: every byte offset k in [0,len(out)+1] at which the writer starts failing (short write + sentinel), in 5 writer variants (plain io.Writer, caller-supplied bufio.Writer(16), a writer that also has WriteByte/WriteString/WriteRune; the plain and the rich writer also with a transient failure after which calls succeed again), under %s: error wraps the sentinel, accepted bytes == out[:k]; distinct = reference output digest", cn),
 			alpha, n, func(s *core.Sub, w int) func([]byte) uint64 {
 				return func(word []byte) uint64 {
 					c14Doc(s, cfg, word, 1)
@@ -107,7 +135,7 @@ func runC14(r *core.Run) {
 	ex := Spec(r)
 	for _, cn := range []string{"core+unsafe+xhtml", "all"} {
 		cfg := core.MustCfg(cn)
-		s := r.Sub("spec/"+cn, fmt.Sprintf("all %d spec examples × every failing offset × 2 writer variants under %s", len(ex), cn))
+		s := r.Sub("spec/"+cn, fmt.Sprintf("all %d spec examples × every failing offset × 5 writer variants under %s", len(ex), cn))
 		core.ForEachIndex(len(ex), core.Workers(), func(w int) func(int) {
 			return func(i int) {
 				c14Doc(s, cfg, []byte(ex[i].Markdown), 1)
